@@ -48,8 +48,9 @@ class H:
         self.req = {'None': None, 'R0': R0, 'R1': R1, 'R2': R2, 'SK': self.SK}
         self.look = {'R0': R0, 'R1': R1, 'R2': R2, 'R3': R3, 'R4': R4, 'SK': self.SK,
                      'SK2': self.SK2, 'pK': providedBy(K()), 'pob': providedBy(self.ob)}
-        self.prov = {'P0': P0, 'P1': P1, 'P2': P2}
-        self.qprov = {'P0': P0, 'P1': P1, 'P2': P2, 'P3': P3}
+        self.P4 = P4 = mk('P4', P1)
+        self.prov = {'P0': P0, 'P1': P1, 'P2': P2, 'P3': P3, 'P4': P4}
+        self.qprov = {'P0': P0, 'P1': P1, 'P2': P2, 'P3': P3, 'P4': P4}
 
 
 def key_universe(arities, small=False):
@@ -114,6 +115,42 @@ def eval_registry(h, flavour, layout, entries, stats):
     return None
 
 
+def eval_provseq(h, flavour, seq, stats):
+    """The 'most general provided interface wins' rule depends on the order in
+    which provided interfaces were first registered and last unregistered (the
+    extendors lists are maintained incrementally): every *sequence* of
+    register / unregister over the provided hierarchy P0, P1(P0), P2(P0),
+    P3(P1,P2), P4(P1) under one required key (two for placement in the base)."""
+    cls = FLAVOURS[flavour]
+    base = cls()
+    reg = cls((base,))
+    regs = [reg, base]
+    live = {}
+    for j, (op, place, p) in enumerate(seq):
+        if op == 'reg':
+            val = 'v%d' % j
+            regs[place].register([h.R0], h.prov[p], '', val)
+            live[(place, p)] = val
+        else:
+            regs[place].unregister([h.R0], h.prov[p], '')
+            live.pop((place, p), None)
+    contents = [(place, (h.R0,), h.prov[p], '', val) for (place, p), val in live.items()]
+    for lreq in ('R0', 'R2'):
+        for qp in ('P0', 'P1', 'P2', 'P3', 'P4'):
+            stats[0] += 1
+            got = reg.lookup([h.look[lreq]], h.qprov[qp], '', SENT)
+            acc = lookup_winners({0: 0, 1: 1}, contents, [h.look[lreq]], h.qprov[qp], '')
+            if acc is None:
+                if got is not SENT:
+                    return ('found-although-none-applies', lreq, qp, '', got)
+            else:
+                if len(contents) > 1:
+                    stats[1] += 1
+                if not any(got is a for a in acc):
+                    return ('wrong-winner', lreq, qp, '', got if got is not SENT else 'default', acc)
+    return None
+
+
 def evaluate(arg):
     flavour, layout, combos = arg
     h = H()
@@ -122,7 +159,10 @@ def evaluate(arg):
     n = 0
     for entries in combos:
         n += 1
-        v = eval_registry(h, flavour, layout, entries, stats)
+        if layout == 'provseq':
+            v = eval_provseq(h, flavour, entries, stats)
+        else:
+            v = eval_registry(h, flavour, layout, entries, stats)
         if v:
             viol.append(dict(sig='C04:' + v[0],
                              case=dict(flavour=flavour, layout=layout, entries=entries),
@@ -139,6 +179,10 @@ def _t(x):
 
 
 def replay(case):
+    fn = eval_provseq if case['layout'] == 'provseq' else None
+    if fn:
+        v = fn(H(), case['flavour'], _t(case['entries']), [0, 0])
+        return dict(violation=v) if v else None
     v = eval_registry(H(), case['flavour'], case['layout'], _t(case['entries']), [0, 0])
     return dict(violation=v) if v else None
 
@@ -165,11 +209,18 @@ def run(ctx):
         plans.append(('chain', list(contents_of_size(k1, 3, (0, 1)))))
         plans.append(('chain', list(contents_of_size(k2[::2], 3, (0, 1)))))
         plans.append(('fork', [c for s in (1, 2) for c in contents_of_size(k1 + k2[::3], s, (0, 1, 2))]))
+    # sequences of register/unregister over the provided hierarchy (order matters)
+    PS = ('P0', 'P1', 'P2', 'P3', 'P4')
+    ops = [('reg', 0, p) for p in PS] + [('unreg', 0, p) for p in PS] + [('reg', 1, p) for p in ('P1', 'P3')]
+    L = 4 if quick else 5
+    provseq = [q for n in range(1, L + 1) for q in itertools.product(ops, repeat=n)
+               if q[0][0] == 'reg' and all(q[i] != q[i + 1] for i in range(len(q) - 1))]
+    plans.append(('provseq', provseq))
     total_regs = 0
     for impl in ('c', 'py'):
         for flavour in FLAVOURS:
             for layout, combos in plans:
-                if quick and flavour == 'verifying' and layout == 'fork':
+                if quick and flavour == 'verifying' and layout in ('fork', 'provseq'):
                     continue
                 size = max(50, len(combos) // 64)
                 res = ctx.map(impl, 'evaluate',
@@ -183,8 +234,9 @@ def run(ctx):
                 ctx.log(impl, flavour, layout, 'registries', len(combos), 'lookups so far', ctx.count['evaluations'])
     ctx.count['transitions'] = ctx.count['evaluations']
     ctx.sample(dict(registrations=mixed[len(mixed) // 2], fields='((required names, provided, name), 0=registry 1=base 2=second base)'))
+    ctx.sample(dict(provided_sequence=provseq[len(provseq) // 2], fields='(op, 0=registry 1=base, provided) under required [R0]; lookups from R0 and R2(R0,R1) for each of P0..P4'))
     ctx.sample(dict(lookup_keys_arity1=list(lookup_keys(1))[:5]))
-    ctx.assumptions += ['hierarchy: R0, R1, R2(R0,R1), R3(R1,R0), R4(R2); P0, P1(P0), P2(P0), P3(P1,P2); class K implements R2, K2(K) implements R1, an instance directly providing R3',
+    ctx.assumptions += ['hierarchy: R0, R1, R2(R0,R1), R3(R1,R0), R4(R2); P0, P1(P0), P2(P0), P3(P1,P2), P4(P1); class K implements R2, K2(K) implements R1, an instance directly providing R3',
                         'two incomparable provided interfaces at the same rank: either is accepted (the property does not resolve it)']
     return finish(
         ctx, 'model_checking',
